@@ -6,6 +6,7 @@
    sequence is one pass that replaces the value of each dispatched key where it stands; the
    model is written as that one pass. *)
 From Model Require Export Walker Hash Email PlanSummary JsonText.
+From Gen Require Import Probed.
 Open Scope string_scope.
 
 Section Line.
@@ -39,9 +40,9 @@ Definition cmd_member (rfn is_insert : bool) (k : string) (v : json) : json :=
   else if String.eqb k "pipeline" then pipe rfn v
   else v.
 
-Definition ns_fields : list string :=
-  ["ns"; "aggregate"; "insert"; "find"; "update"; "collection"; "delete"; "$db"; "count"; "findAndModify";
-   "findOneAndDelete"; "replace"; "findOneAndReplace"; "findOneAndUpdate"; "getIndexes"; "countDocuments"].
+(* redactNamespace's list of member names is not written down here: it is measured on the compiled program on every run
+   (Gen/Probed.v: one probe line per string literal of the sources); Spec/TablesOK.v holds the obligations on it *)
+Definition ns_fields : list string := ns_fields_dumped.
 
 Definition hash_str (v : json) : json := match v with JStr s => JStr (a_hash A s) | _ => v end.
 
